@@ -823,8 +823,8 @@ func parseSpecFunc(s string) (*SpecFunc, error) {
 	sf := &SpecFunc{name: strings.TrimSpace(s[:i]), params: ps, body: e, text: s, rec: rec}
 	if rec {
 		sf.result = strings.TrimSpace(s[j+1 : k])
-		if sf.result != "int" && sf.result != "real" && sf.result != "bool" {
-			return nil, fmt.Errorf("recursive spec function %s needs a result type int, real or bool", sf.name)
+		if sf.result == "" {
+			return nil, fmt.Errorf("recursive spec function %s needs a result type (int, real, bool or a struct / array type of numbers)", sf.name)
 		}
 		if err := checkWellFounded(sf); err != nil {
 			return nil, err
@@ -1534,11 +1534,42 @@ func (x *Exec) evalRecSpec(st *State, env *Env, sf *SpecFunc, argEs []Expr) Valu
 		flat = append(flat, mkInt(int64(x.heapEpoch(st))))
 	}
 	srt := SInt
+	scalar := true
 	switch sf.result {
+	case "int":
 	case "real":
 		srt = SReal
 	case "bool":
 		srt = SBool
+	default:
+		scalar = false
+	}
+	if !scalar {
+		// aggregate result (a matrix, a vector): one uninterpreted application per component
+		rt := x.resolveType(env.pkg, sf.result)
+		if !ufSupported(rt) {
+			fail("spec function %s: result type %s is not an aggregate of numbers", sf.name, sf.result)
+		}
+		rv := x.ufResult(st, "spec_"+sf.name, rt, flat)
+		var leaves []*Term
+		flatten(rv, &leaves)
+		if len(leaves) == 0 {
+			fail("spec function %s: empty result", sf.name)
+		}
+		key := leaves[0].id
+		if x.recDepth == 0 && !st.unfolded[key] {
+			m := make(map[int]bool, len(st.unfolded)+1)
+			for k := range st.unfolded {
+				m[k] = true
+			}
+			m[key] = true
+			st.unfolded = m
+			x.recDepth++
+			body := x.coerceTo(x.eval(st, ne, sf.body), rt)
+			x.recDepth--
+			st.axiom(x.valuesEqual(rv, body))
+		}
+		return rv
 	}
 	r := x.ufApp(st, "spec_"+sf.name, srt, flat)
 	if x.recDepth == 0 && !st.unfolded[r.id] {
